@@ -257,6 +257,10 @@ def rand_base(rng, sym, ndim, fermi=False, prefuse=False):
         groups = [[0, 1]] if rng.random() < 0.5 else [[1, 0]]
         if nd > 2 and rng.random() < 0.5:
             groups.append([2])
+        if nd > 2 and depth == 1 and rng.random() < 0.5:
+            # ... or leave the pre-fused leg ALONE: a single-axis group in fuse, the only free leg of the
+            # fused-mode contraction over the other two (its sub-index structure must come from this array)
+            groups = [[1, 2] if rng.random() < 0.5 else [2, 1], [0]]
     return dict(
         sym=sym, indices=indices, charge=_jc(charge), sectors=secs, groups=groups,
         prefuse=[[0, 1]] if prefuse else None, prefuse2=[[0, 1]] if depth == 2 else None,
@@ -301,6 +305,23 @@ def family_of(rng, base):
         for s in d["sectors"]:
             if _tup(s[k]) == old:
                 s[k] = _jc(new)
+    if sym in ("U1", "U1U1"):
+        # two members that differ from each other in ONE charge label, -1 in one and -2 in the other (labels
+        # whose builtin hashes coincide in CPython; any key must still tell them apart)
+        k = rng.randrange(ndim)
+        have = [_tup(c) for c, _ in base["indices"][k]["cm"]]
+        j = rng.randrange(len(have))
+        old = have[j]
+        for lab in (-1, -2):
+            new = lab if sym == "U1" else (lab, 0)
+            if new in have:
+                continue
+            d = variant(f"label{lab}@{k}")
+            d["indices"][k]["cm"][j][0] = _jc(new)
+            d["indices"][k]["cm"].sort(key=lambda p: _tup(p[0]))
+            for s_ in d["sectors"]:
+                if _tup(s_[k]) == old:
+                    s_[k] = _jc(new)
     # one missing sector, twice (same number of sectors, different sets)
     i1, i2 = rng.sample(range(len(base["sectors"])), 2)
     for i in (i1, i2):
